@@ -65,7 +65,7 @@ def handle (j : Json) : Json :=
       | "plain" => runRef { host := host, sc := scopeOf f, hk := none } fuel f (st0 [])
       | "ref" => runRef { host := host, sc := scopeRef cfg f, hk := some cfg } fuel f (st0 [])
       | _ => runInstr { host := host, sc := scopeInstr f, hk := none } fuel (instrument cfg f)
-               (st0 [(nFrame, .obj "frame" [])])
+               (st0 [])
     Json.mkObj [
       ("ctl", ctlJ c),
       ("log", Json.arr (st.w.log.map valJ).toArray),
